@@ -156,6 +156,9 @@ def run(case):
             out["dx"] = hx(state.basis.dx)
             if state.ndim == 1:
                 out["rq"] = hx(state.basis.interpolate(state.mesh.p[0]).value[0])
+        if "quadrature" in probe:
+            X, W = state.basis.quadrature
+            out["quadrature"] = {"points": hx(np.asarray(X)), "weights": hx(np.asarray(W))}
         if "qcoords" in probe:
             out["qcoords"] = hx(state.basis.global_coordinates().value)
         out["outcome"] = "ok"
